@@ -249,7 +249,7 @@ def graph_levels(g):
 
 def safe_length(g):
     try:
-        return int(with_alarm(2.0, lambda: g.length))
+        return int(with_alarm(0.3, lambda: g.length))
     except CaseTimeout:
         return {'err': 'fuel'}
     except KeyError:
@@ -628,6 +628,22 @@ def gen_chain_list(rng, L=None, kind=None):
         for _ in range(n):
             oids = [int(x) for x in rng.integers(0, nids, size=L)]
             chains.append([oids, [0] * (L + 1), enc(float(rng.choice(COEFFS))), 0])
+        charged = False
+    elif kind in (5, 6) and L >= 2:
+        tag = 'bipartite'
+        # prefixes x suffixes with some pairs missing: vertex covers with both U and V vertices
+        cut = int(rng.integers(1, L))
+        A = [[int(x) for x in rng.integers(0, nids, size=cut)] for _ in range(int(rng.integers(1, 4)))]
+        B = [[int(x) for x in rng.integers(0, nids, size=L - cut)] for _ in range(int(rng.integers(1, 4)))]
+        chains = []
+        for a in A:
+            for b in B:
+                if rng.random() < 0.75:
+                    chains.append([a + b, [0] * (L + 1), enc(float(rng.choice(COEFFS[:6]))), 0])
+        if not chains:
+            chains = [[A[0] + B[0], [0] * (L + 1), enc(2.0), 0]]
+        for _ in range(int(rng.integers(0, 3))):
+            chains.append(gen_chain(rng, L, nids, False))
         charged = False
     return chains, L, 0, charged, tag
 
